@@ -32,7 +32,8 @@ def run_one(name, tier, seeds, props):
     wt = os.path.join(base, "wt")
     shutil.rmtree(base, ignore_errors=True)
     os.makedirs(base)
-    subprocess.run(["git", "-C", REPO, "worktree", "add", "-q", "--detach", wt, "HEAD"], check=True)
+    subprocess.run(["git", "-C", REPO, "worktree", "prune"])
+    subprocess.run(["git", "-C", REPO, "worktree", "add", "-q", "-f", "--detach", wt, "HEAD"], check=True)
     results = []
     try:
         p = subprocess.run(["git", "-C", wt, "apply", patch], stderr=subprocess.PIPE, text=True)
